@@ -257,6 +257,10 @@ fn arity_cases() -> Vec<Case> {
     v
 }
 
+pub fn arity_cases_pub() -> Vec<Case> {
+    arity_cases()
+}
+
 fn compositions(n: usize) -> Vec<Vec<usize>> {
     if n == 0 {
         return vec![vec![]];
